@@ -35,7 +35,7 @@ FAMILY = {
 }
 FAMILY['kwnames'] = msg({'ERROR': 'N', 'INFO': 'N', 'PIN': 'N', 'Elapsed': 'N', 'NANOS': 'N', 'notes': 'B', 'android': 'B', 'inner': 'N', 'total': 'N', 'ask': 'B', 'order': 'S', 'nodes': arr('N'), 'Truth': 'B'})
 QUICK_SCHEMAS = ('flat', 'arrays', 'nested', 'msgarrays', 'kwnames')
-ALL_SCHEMAS = tuple(FAMILY)
+ALL_SCHEMAS = ('flat', 'arrays', 'nested', 'msgarrays', 'fixed', 'deep', 'kwnames')
 
 BASE = {'B': 'BOOL', 'N': 'NUMBER', 'S': 'STRING'}
 
